@@ -145,6 +145,49 @@ macro_rules! long_arrays {
     }};
 }
 
+/// A stored wrapper moved within guest memory to a place that overlaps its old one (up and down
+/// by 1..size-1 bytes, and by its size) through the slice-to-slice copies: the wire format
+/// arrives intact at the new place.
+macro_rules! moves {
+    ($ctx:expr, $W:ident, $N:ty, $tobytes:ident, $vals:expr) => {{
+        use vm_memory::VolatileMemory;
+        let sz = size_of::<$N>();
+        let mut store = [0u64; 8];
+        // SAFETY: store outlives vs
+        let vs = unsafe { VolatileSlice::new(store.as_mut_ptr() as *mut u8, 64) };
+        for &v64 in $vals.iter() {
+            let v = v64 as $N;
+            let w: $W = v.into();
+            let want = v.$tobytes();
+            for off in 16..24usize {
+                for d in 1..=sz {
+                    for up in [true, false] {
+                        for route in 0..2usize {
+                            $ctx.case(true);
+                            vs.write_slice(&[0x5au8; 64], 0).unwrap();
+                            vs.write_obj(w, off).unwrap();
+                            let to = if up { off + d } else { off - d };
+                            let dst = vs.subslice(to, sz).unwrap();
+                            if route == 0 {
+                                vs.subslice(off, sz).unwrap().copy_to_volatile_slice(dst);
+                            } else {
+                                vs.get_array_ref::<$W>(off, 1).unwrap().copy_to_volatile_slice(dst);
+                            }
+                            let mut raw = [0u8; size_of::<$N>()];
+                            vs.read_slice(&mut raw, to).unwrap();
+                            let back: $W = vs.read_obj(to).unwrap();
+                            if raw != want || back != w {
+                                let key = format!("C20/{}/moved-within-guest-memory/{}", stringify!($W), if route == 0 { "VolatileSlice::copy_to_volatile_slice" } else { "VolatileArrayRef::copy_to_volatile_slice" });
+                                $ctx.fail(&key, &format!("value {:#x} stored at offset {} and moved {} by {}: bytes {:02x?}, expected {:02x?}", v, off, if up { "up" } else { "down" }, d, raw, want), json!({"type": stringify!($W), "value": format!("{:#x}", v), "offset": off, "distance": d, "up": up}));
+                            }
+                        }
+                    }
+                }
+            }
+        }
+    }};
+}
+
 /// Placement sweep: one wrapper type stored and loaded at every offset 0..=24 of an 8-aligned
 /// container whose bytes are not zero, through the object, slice and typed-reference routes of a
 /// volatile slice and of mmap-backed guest memory; the whole container is compared afterwards.
@@ -389,7 +432,7 @@ fn structured64() -> impl Iterator<Item = u64> {
 
 pub fn run(tier: Tier, replay: Option<String>) -> i32 {
     let ctx = crate::new_ctx("C20", tier, "exploration", &replay);
-    ctx.set_rule("all 2^16 values for Le16/Be16; all 2^32 values for Le32/Be32 in the thorough tier (quick: every value whose bytes are drawn from {00,01,7f,80,fe,ff} plus rotations of 0x01234567 and single bits); for Le64/Be64/LeSize/BeSize every value whose 8 bytes are drawn from {00,01,7f,80,fe,ff} (6^8 = 1679616 values; every 36th in the quick tier) plus all rotations of 0x0123456789abcdef and all single-bit values. Per value: native->wrapper->native, in-memory bytes == to_le_bytes/to_be_bytes, == with the represented value both ways, != with v^1, the byte-swapped and a rotated value, and (every 97th value) the bytes found in a volatile slice after write_obj at an unaligned offset. Placement sweep: every wrapper x every offset 0..=24 of an 8-aligned container (so every address class mod 8) x 20 boundary values (thorough: + all rotations and single bits) x container pre-filled with 0xa5 / 0x00 x five routes (write_obj, write_slice of as_slice, typed reference store on a volatile slice; write_obj and write on mmap-backed guest memory): the whole container must equal the fill with exactly the wire bytes at the offset, and read_obj must return the value. Every wrapper also stored at every offset of guest memory made of three adjacent regions of 5, 2 and 9 bytes (objects spanning two and three regions). Long typed copies: arrays of 1..257 wrappers (around the powers of two) at every address mod 8 with a host buffer of the same length, one shorter and one longer, through the element-array and the slice copies in both directions. Records made of wrappers (a packed {Le16,Be32} of alignment 1 and a repr(C) {Le32,Be32,Be16,Le16}): typed slice copies in both directions for every slice offset 0..8 x slice length 0..=3 records+3 (so also lengths that are not a multiple of the record size) x 0..=4 host records, element arrays and object reads: whole records in wire format move, nothing else changes. Non-trivial = the value is not a byte palindrome (its two byte orders differ). Distinct by construction.");
+    ctx.set_rule("all 2^16 values for Le16/Be16; all 2^32 values for Le32/Be32 in the thorough tier (quick: every value whose bytes are drawn from {00,01,7f,80,fe,ff} plus rotations of 0x01234567 and single bits); for Le64/Be64/LeSize/BeSize every value whose 8 bytes are drawn from {00,01,7f,80,fe,ff} (6^8 = 1679616 values; every 36th in the quick tier) plus all rotations of 0x0123456789abcdef and all single-bit values. Per value: native->wrapper->native, in-memory bytes == to_le_bytes/to_be_bytes, == with the represented value both ways, != with v^1, the byte-swapped and a rotated value, and (every 97th value) the bytes found in a volatile slice after write_obj at an unaligned offset. Placement sweep: every wrapper x every offset 0..=24 of an 8-aligned container (so every address class mod 8) x 20 boundary values (thorough: + all rotations and single bits) x container pre-filled with 0xa5 / 0x00 x five routes (write_obj, write_slice of as_slice, typed reference store on a volatile slice; write_obj and write on mmap-backed guest memory): the whole container must equal the fill with exactly the wire bytes at the offset, and read_obj must return the value. Every wrapper also stored at every offset of guest memory made of three adjacent regions of 5, 2 and 9 bytes (objects spanning two and three regions). A stored wrapper moved within guest memory up and down by 1..size bytes (overlapping its old place) through both slice-to-slice copies. Long typed copies: arrays of 1..257 wrappers (around the powers of two) at every address mod 8 with a host buffer of the same length, one shorter and one longer, through the element-array and the slice copies in both directions. Records made of wrappers (a packed {Le16,Be32} of alignment 1 and a repr(C) {Le32,Be32,Be16,Le16}): typed slice copies in both directions for every slice offset 0..8 x slice length 0..=3 records+3 (so also lengths that are not a multiple of the record size) x 0..=4 host records, element arrays and object reads: whole records in wire format move, nothing else changes. Non-trivial = the value is not a byte palindrome (its two byte orders differ). Distinct by construction.");
     ctx.assume("64-bit and pointer-sized wrappers are covered by a bounded byte alphabet, not exhaustively");
     let mut fails = 0;
     for (n, s, a) in [
@@ -498,6 +541,17 @@ pub fn run(tier: Tier, replay: Option<String>) -> i32 {
         across_regions!(ctx, Be64, u64, to_be_bytes, vals, &mem3);
         across_regions!(ctx, LeSize, usize, to_le_bytes, vals, &mem3);
         across_regions!(ctx, BeSize, usize, to_be_bytes, vals, &mem3);
+    }
+    {
+        let mv: Vec<u64> = vec![0x0123_4567_89ab_cdef, 0xfedc_ba98_7654_3210, 0x8000_0000_0000_0001, 0x00ff_00ff_00ff_00ff, 0x1122_3344_5566_7788];
+        moves!(ctx, Le16, u16, to_le_bytes, mv);
+        moves!(ctx, Be16, u16, to_be_bytes, mv);
+        moves!(ctx, Le32, u32, to_le_bytes, mv);
+        moves!(ctx, Be32, u32, to_be_bytes, mv);
+        moves!(ctx, Le64, u64, to_le_bytes, mv);
+        moves!(ctx, Be64, u64, to_be_bytes, mv);
+        moves!(ctx, LeSize, usize, to_le_bytes, mv);
+        moves!(ctx, BeSize, usize, to_be_bytes, mv);
     }
     long_arrays!(ctx, Le16, u16, to_le_bytes);
     long_arrays!(ctx, Be16, u16, to_be_bytes);
